@@ -6,8 +6,9 @@ package cty
 // Comment-only file.
 //
 //@ func cty.NumberIntVal
-//@   tags C06
+//@   tags C06 C02
 //@   ensures[C06] shape: (and (is_number_ty (vty result)) (plain result) ((_ is box<*math/big.Float>) (cty.Value.v result)) (not (= (unbox<*math/big.Float> (cty.Value.v result)) 0)))
+//@   ensures[C02] value: (and (= (num_i result) 0) (= (num_r result) (to_real v)) (= (bf.int64 (bf_of result)) v) (= (bf.acc64 (bf_of result)) 0) (= (num_p result) 64))
 //
 //@ func cty.NumberUIntVal
 //@   tags C06
